@@ -478,7 +478,7 @@ def run_seed(args: dict, sandbox: str) -> dict:
             fl = []  # fault-free configuration: D vs D
     a = rng.stream(seed, "args")
     spec = {"hashseed": seed % 4, "doc": doc, "faults": fl, "meta": a.choice(["none", "none", "poetry"]),
-            "config": {"literal_enums": a.random() < 0.2, "generate_all_tags": False}}
+            "config": docgen.random_config(a, doc)}
     res = run_spec({"spec": spec}, sandbox)
     if not res.get("violations"):
         res.pop("spec", None)
